@@ -18,12 +18,22 @@
     * `ExclusionHonoured g fl` — every excluded module is blacklisted by `is_in_import_blacklist`
                                (which exempts stdlib names) or is a stdlib module while stdlib modules
                                are not followed anyway.
+
+  Edges (last section): `Edges.*` (RattrModel/ImportEdges.lean) derives `Imp.target` from the import
+  STATEMENT (level 0..n, module part, imported name) and the importing FILE (module name,
+  `__init__.py` or not) the way rattr does (`derive_absolute_module_name`, `find_module_name_and_spec`);
+  `C12_edge_like_python` / `C12_graph_like_python` / `C12_project_partial`: these are Python's edges
+  (`importlib.util.resolve_name` on the file's package, longest existing prefix), so the analysed set
+  is `Spec.Reach` over Python's import graph of the project; `C12_init_as_module_inside`: the
+  `__init__.py` rule at every level.
 -/
 import RattrModel.Imports
 import RattrModel.Spec.Allowed
 import RattrModel.Generated.C12
 import RattrProofs.Lemmas.C12
 import RattrProofs.Lemmas.C12Config
+import RattrModel.ImportEdges
+import RattrProofs.Lemmas.C12Edges
 
 set_option linter.unusedSectionVars false
 
@@ -1239,5 +1249,228 @@ example : (match stage (wToml 0) argvT gEx tEx with | .ran fl out => some (fl, o
   decide +kernel
 
 end ConfigWitnesses
+
+/-! ## Where the edges come from: import statements, relative levels, `__init__.py`
+
+Until here the edges of the graph (`Imp.target`) were parameters. `Edges.*` (RattrModel/ImportEdges.lean)
+computes them the way rattr does — `derive_absolute_module_name` for `from ..x import f`, with its
+`__init__.py` adjustment, then the right-to-left prefix search of `find_module_name_and_spec` — and the
+theorems below say that the graph so obtained is the graph Python's own rule gives
+(`importlib.util.resolve_name` on the package of the importing file, longest existing prefix), for
+every project, every nesting depth, every level, `__init__.py` or not, whatever other modules of the
+same name exist elsewhere (`ex` is arbitrary). Hence the set analysed is `Spec.Reach` over PYTHON's
+edges (`C12_project_partial`). -/
+
+section EdgeTheorems
+open Rattr.Locator Rattr.Edges
+
+/-- Tie A: the import visitors build the `Import` symbol from exactly the data the model uses (the two
+starred ones — outside C12's fragment — go through the same `derive_absolute_module_name` call;
+`visit_relative_import`: base = name of the CURRENT file, module = `derive_absolute_module_name(base,
+node.module, node.level)`, qualified name = module + "." + imported name); `Import.module_name` is the
+first component of `find_module_name_and_spec(qualified_name)`; `derive_absolute_module_name` is the
+three statements `Locator.deriveAbs` models. -/
+theorem tieA_edge_sites :
+    Generated.C12.edgeSites =
+      ["visit_Import:name=alias.asname or alias.name", "visit_Import:qualified_name=alias.name",
+       "visit_Import:module_name=alias.name", "visit_Import:token=node",
+       "visit_starred_relative_import:base = derive_module_name_from_path(config.state.current_file)",
+       "visit_starred_relative_import:module_name = derive_absolute_module_name(base, node.module, node.level)",
+       "visit_starred_relative_import:name='*'", "visit_starred_relative_import:qualified_name=module_name",
+       "visit_starred_relative_import:module_name=module_name", "visit_starred_relative_import:token=node",
+       "visit_relative_import:base = derive_module_name_from_path(config.state.current_file)",
+       "visit_relative_import:module_name = derive_absolute_module_name(base, node.module, node.level)",
+       "visit_relative_import:name=target.asname or target.name",
+       "visit_relative_import:qualified_name=f'{module_name}.{target.name}'",
+       "visit_relative_import:module_name=module_name", "visit_relative_import:token=node",
+       "visit_starred_import:name='*'", "visit_starred_import:qualified_name=node.module",
+       "visit_starred_import:module_name=node.module", "visit_starred_import:token=node",
+       "visit_named_import:name=target.asname or target.name",
+       "visit_named_import:qualified_name=f'{node.module}.{target.name}'",
+       "visit_named_import:module_name=node.module", "visit_named_import:token=node"] ∧
+    Generated.C12.importModuleName =
+      ["_module_name_and_spec:return find_module_name_and_spec(self.qualified_name)",
+       "module_name:return self._module_name_and_spec[0]"] ∧
+    Generated.C12.deriveAbsBody =
+      ["config = Config()", "if config.state.current_file.name == '__init__.py'", "level -= 1", "endif",
+       "if level > 0", "base = '.'.join(base.split('.')[:-level])", "endif",
+       "return f'{base}.{target}' if target is not None else base"] := by
+  decide
+
+/-- Tie A, evaluated: the real `derive_absolute_module_name` run on the grid `__init__.py` / module ×
+base of 1..5 components × no / plain / dotted target × level 0..5 (180 rows, levels beyond the
+top-level package included) returns what `Locator.deriveAbs` returns, row by row. -/
+theorem tieA_derive_abs_table :
+    Generated.C12.deriveAbsTable.length = 180 ∧
+    Generated.C12.deriveAbsTable.all (fun r => deriveAbsStr r.1 r.2.1 r.2.2.1 r.2.2.2.1 == r.2.2.2.2) = true := by
+  decide +kernel
+
+/-- The qualified name rattr gives an import statement is the one Python's rule gives, whenever
+Python accepts the statement: absolute or relative, any level, in a module or in an `__init__.py`. -/
+theorem C12_edge_qualified_like_python (f : Edges.Src) (s : Stmt) (q : Dotted)
+    (h : pyQualified f s = .ok q) : qualified f s = q := by
+  unfold pyQualified at h
+  unfold qualified moduleOf
+  by_cases hl : s.level = 0
+  · simp only [hl, if_true] at h ⊢
+    cases hn : s.name <;> simp_all
+  · simp only [hl, if_false] at h ⊢
+    cases hr : Spec.pyResolveName (Spec.packageOf f.base f.isInit) s.level s.module with
+    | error e => rw [hr] at h; cases h
+    | ok m =>
+      rw [hr] at h
+      have hd := C12Edges.deriveAbs_like_python f.isInit f.base s.module s.level m (by omega) hr
+      rw [hd]
+      cases hn : s.name <;> simp_all
+
+/-- A statement Python refuses (relative import beyond the top-level package / without a parent
+package) gives no edge: the name rattr derives starts with "." and `find_module_name_and_spec` rejects
+it — whatever modules exist. -/
+theorem C12_edge_escape_unresolved (ex : Dotted → Bool) (f : Edges.Src) (s : Stmt) (e : Spec.ResolveErr) (n : Str)
+    (hl : 1 ≤ s.level) (hn : s.name = some n) (hb : f.base ≠ [])
+    (h : pyQualified f s = .error e) : moduleName ex (qualified f s) = none := by
+  have hl0 : s.level ≠ 0 := by omega
+  unfold pyQualified at h
+  simp only [hl0, if_false] at h
+  cases hr : Spec.pyResolveName (Spec.packageOf f.base f.isInit) s.level s.module with
+  | ok m => rw [hr] at h; cases h
+  | error e' =>
+    have hd := C12Edges.deriveAbs_escape f.isInit f.base s.module s.level e' hl hb hr
+    unfold moduleName qualified moduleOf
+    simp only [hl0, if_false, hn, hd, C12Edges.startsWithDot_escName, if_true]
+
+/-- **One edge.** For every statement of the fragment (`wf`: decidable, evaluated on every generated
+statement) the edge the BFS enqueues is Python's edge, for every existence predicate `ex` — so a
+same-named module one or two packages further up (or down) is never reached instead. -/
+theorem C12_edge_like_python (ex : Dotted → Bool) (f : Edges.Src) (s : Stmt) (h : wf f s = true) :
+    impOf ex f s = pyImpOf ex f s := by
+  unfold impOf pyImpOf pyTarget
+  unfold wf at h
+  cases hq : pyQualified f s with
+  | ok q =>
+    rw [hq] at h
+    simp only [Bool.and_eq_true, decide_eq_true_eq, Bool.not_eq_true'] at h
+    rw [C12_edge_qualified_like_python f s q hq, C12Edges.moduleName_eq_longestPrefix ex q h.1 h.2]
+  | error e =>
+    rw [hq] at h
+    simp only [Bool.and_eq_true, decide_eq_true_eq, Option.isSome_iff_exists] at h
+    obtain ⟨⟨hl, n, hn⟩, hb⟩ := h
+    rw [C12_edge_escape_unresolved ex f s e n hl hn hb hq]
+
+/-- The module an edge leads to exists and is a prefix of the qualified name. -/
+theorem C12_edge_target_exists (ex : Dotted → Bool) (q n : Dotted) (hq : q ≠ [])
+    (h : moduleName ex q = some n) : ex n = true ∧ ∃ k, n = q.take k := by
+  unfold moduleName at h
+  split at h
+  · cases h
+  · refine ⟨List.find?_some h, ?_⟩
+    have hm := List.mem_of_find?_eq_some h
+    unfold iterModuleNamesRight at hm
+    simp only [hq, if_false, List.mem_map, List.mem_range] at hm
+    obtain ⟨k, _, hk⟩ := hm
+    exact ⟨q.length - k, hk.symm⟩
+
+/-- **The `__init__.py` rule.** The `__init__.py` of a package resolves every import statement
+exactly as a module lying directly inside that package does — for every level and every module
+part. (This is `level -= 1`; an adjustment made for level 1 only would break it at levels ≥ 2.) -/
+theorem C12_init_as_module_inside (f : Edges.Src) (s : Stmt) (x : Str) (hi : f.isInit = true) (hb : f.base ≠ []) :
+    moduleOf f s = moduleOf (asModuleInside f x) s := by
+  unfold moduleOf asModuleInside
+  by_cases hl : s.level = 0
+  · simp [hl]
+  · simp only [hl, if_false, hi]
+    rw [C12Edges.deriveAbs_eq, C12Edges.deriveAbs_eq]
+    have hs : C12Edges.strip f.base (s.level - 1) = C12Edges.strip (f.base ++ [x]) s.level := by
+      unfold C12Edges.strip
+      have hpos : s.level > 0 := by omega
+      simp only [hpos, if_true, List.length_append, List.length_cons, List.length_nil]
+      have ht : (f.base ++ [x]).take (f.base.length + (0 + 1) - s.level) = f.base.take (f.base.length - (s.level - 1)) := by
+        have : f.base.length + (0 + 1) - s.level = f.base.length - (s.level - 1) := by omega
+        rw [this, List.take_append_of_le_length (by omega)]
+      rw [ht]
+      by_cases h1 : s.level - 1 > 0
+      · simp [h1]
+      · have h0 : s.level - 1 = 0 := by omega
+        simp only [h0, Nat.lt_irrefl, gt_iff_lt, if_false, Nat.sub_zero, List.take_length]
+        simp [joinSplit, hb]
+    simp only [if_true, Bool.false_eq_true, if_false, hs]
+
+/-- **The whole graph.** In a project all of whose statements are in the fragment, the graph rattr
+walks is the graph of Python's edges. -/
+theorem C12_graph_like_python {ω : Type} (ex : Dotted → Bool) (P : List (PFile ω)) (h : WellFormed P) :
+    graphOf ex P = pyGraphOf ex P := by
+  unfold graphOf pyGraphOf
+  apply List.map_congr_left
+  intro p hp
+  unfold toModule toPyModule
+  congr 1
+  apply List.map_congr_left
+  intro s hs
+  exact C12_edge_like_python ex p.src s (h p hp s hs)
+
+/-- **C12 over statements.** Project `P`, target file `t` (not one of the graph's nodes: it is analysed
+as the target), level `lvl`: when the stage finishes on the graph RATTR derives from the statements,
+the analysed modules are exactly `Spec.Reach` over the edges PYTHON derives from them, each file once,
+and the resolver finds every import it lets through — under `C12_partial`'s hypotheses, for every
+nesting depth, relative level and existence predicate. -/
+theorem C12_project_partial {ω : Type} [DecidableEq ω] (ex : Dotted → Bool) (P : List (PFile ω)) (t : PFile ω)
+    (lvl : Nat) (hwf : WellFormed (t :: P))
+    (hinj : OriginInjective (pyGraphOf ex P)) (hnb : NoOverBlacklist (pyGraphOf ex P))
+    (hex : ExclusionHonoured (pyGraphOf ex P) (levelFlags lvl)) :
+    ∀ st, bfs (graphOf ex P) (levelFlags lvl)
+            (fuelBound (graphOf ex P) (t.stmts.map (impOf ex t.src))) (t.stmts.map (impOf ex t.src)) = .done st →
+      (∀ n, n ∈ st.analysed ↔ Reach (pyGraphOf ex P) (levelFlags lvl) (t.stmts.map (pyImpOf ex t.src)) n) ∧
+      (st.analysed.map (originOf (pyGraphOf ex P))).Nodup ∧
+      (∀ i ∈ t.stmts.map (pyImpOf ex t.src), hasOrigin (pyGraphOf ex P) i = true →
+        importAllowed (pyGraphOf ex P) (levelFlags lvl) (irsKeys st.analysed) i ≠ .crashNotFound) := by
+  have hg : graphOf ex P = pyGraphOf ex P :=
+    C12_graph_like_python ex P (fun p hp => hwf p (List.mem_cons_of_mem _ hp))
+  have ht : t.stmts.map (impOf ex t.src) = t.stmts.map (pyImpOf ex t.src) := by
+    apply List.map_congr_left
+    intro s hs
+    exact C12_edge_like_python ex t.src s (hwf t (List.mem_cons_self ..) s hs)
+  rw [hg, ht]
+  exact C12_partial (pyGraphOf ex P) lvl (t.stmts.map (pyImpOf ex t.src)) hinj hnb hex
+
+/-! #### Non-vacuity: the chain `np`, `np.q1`, `np.q1.q2` with a module `util` in every package and at
+the top level; `from ..util import f` written in `np/q1/q2/__init__.py` and in `np/q1/q2/m.py` -/
+
+private def S (s : String) : Dotted := Strs.splitDot s.toList
+private def exNp : Dotted → Bool := fun n =>
+  n ∈ [S "np", S "np.q1", S "np.q1.q2", S "np.q1.q2.m", S "util", S "np.util", S "np.q1.util", S "np.q1.q2.util"]
+private def initQ2 : Edges.Src := { base := S "np.q1.q2", isInit := true }
+private def modQ2 : Edges.Src := { base := S "np.q1.q2.m", isInit := false }
+private def relUtil (lvl : Nat) : Stmt := { level := lvl, module := some (S "util"), name := some "f".toList, declBl := false }
+
+example : (impOf exNp initQ2 (relUtil 1)).target = some (S "np.q1.q2.util") ∧
+    (impOf exNp initQ2 (relUtil 2)).target = some (S "np.q1.util") ∧
+    (impOf exNp initQ2 (relUtil 3)).target = some (S "np.util") ∧
+    (impOf exNp modQ2 (relUtil 2)).target = some (S "np.q1.util") ∧
+    (impOf exNp modQ2 (relUtil 3)).target = some (S "np.util") := by decide
+example : wf initQ2 (relUtil 2) = true ∧ wf modQ2 (relUtil 3) = true ∧ wf initQ2 (relUtil 4) = true ∧
+    pyQualified initQ2 (relUtil 4) = .error .beyondTopLevel ∧ (impOf exNp initQ2 (relUtil 4)).target = none := by decide
+/-- what stripping one component too many in an `__init__.py` would reach: the decoy one level up -/
+example : Spec.longestPrefix exNp (deriveAbs false initQ2.base (some (S "util")) 2 ++ ["f".toList]) = some (S "np.util") := by
+  decide
+
+/-- a whole project: the chain with all its `util` modules, `np/q1/q2/__init__.py` doing
+`from ..util import f`, a target doing `from np.q1.q2 import g` — the hypotheses of
+`C12_project_partial` hold and the stage analyses `np.q1.q2` and `np.q1.util` (not `np.util`, not
+`np.q1.q2.util`, not `util`) -/
+private def pf (name : String) (isInit : Bool) (origin : Nat) (stmts : List Stmt) : PFile Nat :=
+  { src := { base := S name, isInit := isInit }, origin := some origin, readable := true, blacklisted := false,
+    inPip := false, inStdlib := false, excluded := false, stmts := stmts }
+private def Pnp : List (PFile Nat) :=
+  [pf "np" true 1 [], pf "np.q1" true 2 [], pf "np.q1.q2" true 3 [relUtil 2], pf "util" false 4 [],
+   pf "np.util" false 5 [], pf "np.q1.util" false 6 [], pf "np.q1.q2.util" false 7 []]
+private def tNp : PFile Nat :=
+  pf "target" false 0 [{ level := 0, module := some (S "np.q1.q2"), name := some "g".toList, declBl := false }]
+
+example : WellFormed (tNp :: Pnp) ∧ OriginInjective (pyGraphOf exNp Pnp) ∧ NoOverBlacklist (pyGraphOf exNp Pnp) ∧
+    ExclusionHonoured (pyGraphOf exNp Pnp) (levelFlags 1) := by decide
+example : (bfs (graphOf exNp Pnp) (levelFlags 1) (fuelBound (graphOf exNp Pnp) (tNp.stmts.map (impOf exNp tNp.src)))
+    (tNp.stmts.map (impOf exNp tNp.src))).state.analysed = [S "np.q1.q2", S "np.q1.util"] := by decide
+
+end EdgeTheorems
 
 end Rattr.C12
